@@ -1,0 +1,5 @@
+//go:build !verif
+
+package ansi
+
+func verifC10(p *Parser, point string) {}
